@@ -1348,6 +1348,11 @@ def rt_norm(inp):
             m = _monotone_problem(xf, np.where(mask, np.nan, y), 1e-12)
             if m:
                 problems.append(f"not non-decreasing (limits {lo}, {hi}): " + m)
+        # composition: the result is the stretch applied to the interval's output
+        want = np.asarray(n.stretch(n.interval(x0.copy())), dtype=float).ravel()
+        if not np.allclose(np.where(mask, 0.0, y), np.where(mask, 0.0, want), rtol=0, atol=1e-12, equal_nan=True):
+            j = int(np.nonzero(~np.isclose(np.where(mask, 0.0, y), np.where(mask, 0.0, want), rtol=0, atol=1e-12))[0][0])
+            problems.append(f"result is not stretch(interval(x)): x={xf[j]} -> {y[j]}, stretch(interval(x)) = {want[j]}")
         fin = xf[np.isfinite(xf)]
         if inp.get("data_given", True) and cfg.get("interval_type", "quantile") != "quantile" and cfg.get("vmin") is None and cfg.get("vmax") is None \
                 and cfg.get("half_range") is None and len(set(fin.tolist())) >= 2 and not lo < hi:
